@@ -300,7 +300,7 @@ class EarleyRegexpMatcher:
                 if width == 0:
                     raise GrammarError("Dynamic Earley doesn't allow zero-width regexps", t)
             if lexer_conf.use_bytes:
-                regexp = regexp.encode('utf-8')
+                regexp = regexp.encode('latin-1')
 
             self.regexps[t.name] = lexer_conf.re_module.compile(regexp, lexer_conf.g_regex_flags)
 
